@@ -249,6 +249,8 @@ pub struct VModel<T> {
     pub dirty_since_commit: bool,
     /// logical state differs from what a re-import would give
     pub unflushed: bool,
+    /// stored prefix on disk may differ from the logical contents (pending updates / rollback overlay)
+    pub stored_dirty: bool,
 }
 
 impl<T: Elem> VModel<T> {
@@ -262,6 +264,7 @@ impl<T: Elem> VModel<T> {
             files: BTreeMap::new(),
             dirty_since_commit: false,
             unflushed: false,
+            stored_dirty: false,
         }
     }
     pub fn holes(&self) -> BTreeSet<usize> {
@@ -595,6 +598,7 @@ where
 
     fn after_write(&mut self) {
         self.model.stored = self.model.items.len();
+        self.model.stored_dirty = false;
     }
 
     /// applies one op to the vector and the model. Ok(false) = op skipped (not applicable).
@@ -685,6 +689,7 @@ where
                     obs.label("update-deleted-slot");
                 }
                 self.model.items[i] = Some(val);
+                self.model.stored_dirty = true;
                 self.touch();
             }
             VOp::Delete { i } => {
@@ -694,6 +699,7 @@ where
                 let Some(i) = self.resolve_idx(*i) else { return Ok(false) };
                 self.vm().raw_mut().unwrap().r_delete_at(i);
                 self.model.items[i] = None;
+                self.model.stored_dirty = true;
                 self.touch();
                 obs.label("delete");
             }
@@ -712,6 +718,7 @@ where
                     ));
                 }
                 self.model.items[i] = None;
+                self.model.stored_dirty = true;
                 self.touch();
                 obs.label("take");
             }
@@ -749,6 +756,7 @@ where
                 if got != want {
                     return Err(format!("fill_first_hole_or_push returned index {got}, model expects {want}"));
                 }
+                self.model.stored_dirty = true;
                 self.touch();
             }
             VOp::Commit { bump } => {
@@ -815,6 +823,7 @@ where
                 self.model.stamp = s.stamp;
                 self.model.cur = parent;
                 self.model.unflushed = true;
+                self.model.stored_dirty = true;
                 self.model.stored = self.model.stored.min(self.model.items.len());
                 obs.label("rollback-ok");
                 Ok(true)
@@ -892,6 +901,7 @@ where
                 self.model.stamp = sn.stamp;
                 self.model.cur = cur;
                 self.model.unflushed = true;
+                self.model.stored_dirty = true;
                 self.model.stored = self.model.stored.min(self.model.items.len());
                 let _ = passed_abandoned;
                 Ok(true)
